@@ -21,7 +21,11 @@ pub struct InputEvent {
 impl InputEvent {
     pub fn text_string(&self) -> Option<String> {
         match &self.event {
-            Event::Text(t) => Some(String::from_utf8(t.to_vec()).expect("utf8")),
+            // the reader hands out raw (still escaped) text; callers want character data
+            Event::Text(t) => match t.unescape() {
+                Ok(text) => Some(text.into_owned()),
+                Err(_) => None,
+            },
             _ => None,
         }
     }
@@ -342,9 +346,12 @@ impl From<InputEvent> for OutputEvent {
                     String::from_utf8(e.name().into_inner().to_vec()).expect("utf8");
                 OutputEvent::End(elem_name)
             }
-            Event::Text(t) => {
-                OutputEvent::Text(String::from_utf8(t.into_inner().to_vec()).expect("utf8"))
-            }
+            // `OutputEvent::Text` holds character data, which is escaped again when
+            // written; text that cannot be decoded is passed through untouched.
+            Event::Text(t) => match t.unescape() {
+                Ok(text) => OutputEvent::Text(text.into_owned()),
+                Err(_) => OutputEvent::Other(Event::Text(t)),
+            },
             Event::CData(c) => {
                 OutputEvent::CData(String::from_utf8(c.into_inner().to_vec()).expect("utf8"))
             }
